@@ -450,3 +450,48 @@ def codec_family(rep, n_cases, max_depth, nproc=16):
     cov["distinct_nontrivial"] = cov.get("distinct_nontrivial", 0) + len(hashes)
     cov.setdefault("families", {})["c06-codec"] = tot
     return tot
+
+
+def history_probes(rep, pid="C06"):
+    """loads that depend on what the engine met before, and values nested deeper than any generated one:
+    (a) a save naming a class the host registers only AFTER a first load failed to find it - the second load rebuilds the objects;
+    (b) 150 containers deep, a chain of 130 linked objects: every depth is a depth"""
+    from bardic.runtime.engine import BardEngine
+    fam = pid.lower() + "-history"
+    story = {"version": "0.1.0", "initial_passage": "Start", "metadata": {}, "imports": [],
+             "passages": {"Start": {"id": "Start", "params": [], "content": [{"type": "text", "value": "x"}], "choices": [], "execute": []}}}
+    n = 0
+
+    def bad(what):
+        rep.violations.append({"cls": None, "family": fam, "what": what})
+    try:
+        with quiet():
+            src = BardEngine(copy.deepcopy(story), context=dict(registry()))
+            src.state["card"] = vclasses.Card("Fool", 0)
+            src.state["purse"] = vclasses.Purse(3, [vclasses.Card("Sun", 19)], "t")
+            doc = json.loads(json.dumps(src.save_state()))
+            late = BardEngine(copy.deepcopy(story), context={})
+            late.load_state(copy.deepcopy(doc))                     # the classes are unknown: dicts, with a warning
+            late.context.update(registry())                         # the host registers them
+            late.load_state(copy.deepcopy(doc))
+        n += 1
+        if not isinstance(late.state.get("card"), vclasses.Card) or not isinstance(late.state.get("purse"), vclasses.Purse):
+            bad(f"after the host registered the classes, loading the save again gives {type(late.state.get('card')).__name__} / {type(late.state.get('purse')).__name__} "
+                "instead of Card / Purse (a first load, made before the classes were registered, is remembered)")
+        # (b) depth
+        deep = vclasses.Card("bottom", 1)
+        for k in range(150):
+            deep = [deep] if k % 2 else {"k": deep}
+        chain = vclasses.Deck([], "end", {})
+        for k in range(130):
+            chain = vclasses.Deck([chain], f"d{k}", {})
+        for name, v in (("150 containers deep", deep), ("a chain of 130 linked objects", chain)):
+            with quiet():
+                _, loaded = real_roundtrip(v)
+            n += 1
+            if observe(loaded) != observe(v):
+                bad(f"{name}: the rebuilt value differs from the saved one: " + json.dumps(first_diff(observe(v), observe(loaded), ""))[:200])
+    except Exception as ex:  # noqa
+        bad(f"probe failed: {type(ex).__name__}: {str(ex)[:200]}")
+    rep.coverage.setdefault("families", {})[fam] = {"cases": n}
+    rep.coverage["evaluations"] = rep.coverage.get("evaluations", 0) + n
